@@ -63,7 +63,8 @@ D_DEFAULT, D_MISSING, D_NOCTX, D_EXPLICIT = 91, 92, 93, 94
 
 
 class Err(Exception):
-    pass
+    def __bool__(self):
+        return False
 
 
 class Err2(Exception):
@@ -71,7 +72,8 @@ class Err2(Exception):
 
 
 class Base(BaseException):
-    pass
+    def __bool__(self):
+        return False
 
 
 _SHARED = {}
